@@ -86,7 +86,7 @@ Section Success.
         assert (Hd : Nat.leb max_depth d = false) by (cbn [map] in E1; apply (tuple_depth_ok o d _ _ false u E1)).
         destruct (tuple_projection o d (map snd (x0 :: r0)) false u ltac:(discriminate) E1) as (F & -> & Hlen & Hcol).
         assert (Hall : forall i, exists T, trace_seq' o (S d) (col i (map snd TS')) (Ok (TUnknown false)) = Ok T).
-        { intros i. apply (IH (S d) (col i (map snd (x0 :: r0))) (col i (map snd TS')) _ (Hh i) (col_perm i _ _ Hps) (Hcol i)). }
+        { intros i. destruct (Hcol i) as (T0 & R0 & _). apply (IH (S d) (col i (map snd (x0 :: r0))) (col i (map snd TS')) _ (Hh i) (col_perm i _ _ Hps) R0). }
         destruct (tuple_complete o d (map snd TS') false Hd Hall) as (u2 & E2).
         rewrite (strip0 o d vs') by (rewrite Hc'; first [apply containers_map; exact Htc|destruct TS'; [congruence|discriminate]]).
         rewrite Hc', tups_collection, E2, omk_ok. eexists; reflexivity.
